@@ -55,6 +55,19 @@ Body ==
   \cup {[k |-> "org", a |-> a] : a \in {16, 4096}}
   \cup {[k |-> "define", n |-> "KD", v |-> Num(77)], D(1, <<Ref("KD")>>)}
 
+\* instruction lines, which the model does not interpret (the renderer puts a CPU's instruction texts in their place):
+\* Expand passes them through, so the program and its expansion must assemble to one image on every CPU
+\* (no .repeat shape: the property makes .repeat copy the bytes of its body, which for an instruction that encodes its
+\* own address is not what assembling the line a second time gives)
+Ln(i) == [k |-> "line", i |-> i]
+Wm(body) == [k |-> "macro", n |-> "wrapm", np |-> 0, body |-> body]
+Wi == [k |-> "invoke", n |-> "wrapm", args |-> <<>>]
+WrapProgs == {<<Wm(<<Ln(1)>>), Wi>>,
+              <<Wm(<<Ln(1), Ln(2)>>), Wi, Wi>>,
+              <<Ln(2), Wm(<<Ln(1)>>), Wi, Ln(2), Wi>>,
+              <<[k |-> "macro", n |-> "wrapp", np |-> 1, body |-> <<[k |-> "pstmt", i |-> 1]>>],
+                [k |-> "invoke", n |-> "wrapp", args |-> <<StmtArg(Ln(1))>>]>>}
+EmitWrap == (Len(prog) = Len(Prelude)) => PrintT("WRAP " \o ToJson({[p |-> w, x |-> Expand(w)] : w \in WrapProgs}))
 Init == prog = Prelude /\ n \in 1..MaxLen
 NextR == Len(prog) < Len(Prelude) + n /\ prog' = Append(prog, RandomElement(Body)) /\ UNCHANGED n
 SpecR == Init /\ [][NextR]_<<prog, n>>
